@@ -35,13 +35,19 @@ where
     }
   }
   pub fn next(&self, x: T) {
-    self.fn_next.call_if_available(x);
+    if self.is_subscribed() {
+      self.fn_next.call_if_available(x);
+    }
   }
   pub fn error(&self, x: RxError) {
-    self.fn_error.call_and_clear_if_available(x);
+    if self.is_subscribed() {
+      self.fn_error.call_and_clear_if_available(x);
+    }
   }
   pub fn complete(&self) {
-    self.fn_complete.call_and_clear_if_available(());
+    if self.is_subscribed() {
+      self.fn_complete.call_and_clear_if_available(());
+    }
   }
   pub fn unsubscribe(&self) {
     self.fn_next.clear();
